@@ -8,7 +8,7 @@ import (
 	"verif/harness/ph"
 )
 
-var c05Pool = []string{"v", "ve", "ver", "verbose", "vex", "x", "é", "ê"} // é and ê share their first byte
+var c05Pool = []string{"v", "ve", "ver", "verbose", "vex", "x", "é", "ê", "VE"} // é and ê share their first byte; VE differs from ve only in case
 
 // partitions of the index set {0..n-1} (restricted growth strings)
 func setPartitions(n int) [][][]int {
@@ -82,7 +82,7 @@ func defsC05(maxSize int) []c05Def {
 						for _, ro := range []bool{false, true} {
 							d := &ph.Def{Mode: mode, RequireOrder: ro, Help: "help", Root: ph.CmdDef{Name: "prog", Opts: opts,
 								Cmds: []*ph.CmdDef{{Name: "cmd", Opts: []ph.OptDef{{Name: "vz", Kind: ph.Bool}}},
-									{Name: "w", Unset: true, Opts: []ph.OptDef{{Name: "vew", Kind: ph.Bool}}}}}}
+									{Name: "w", Unset: true, Unknown: 3, Opts: []ph.OptDef{{Name: "vew", Kind: ph.Bool}, {Name: "vewy", Kind: ph.Bool}}}}}} // a wrapper as documented (UnsetOptions + Pass) with two own names sharing a prefix
 							out = append(out, c05Def{d, names})
 						}
 					}
@@ -149,8 +149,8 @@ func init() {
 	register(&Check{
 		ID:        "C05",
 		QuickSecs: 300, ThoroSecs: 900,
-		Rule: "input-space exploration over definitions: all subsets of size 2-4 of the name pool {v, ve, ver, verbose, vex, x, é, ê} x all partitions of the subset into options (names of one block are aliases) x option kind {bool, string} x 3 modes x require-order on/off, " +
-			"each queried with every prefix of every name plus non-matching texts, in long and short spelling, at the root and inside a command that inherits the options and adds one of its own, alone and after a token that sets another option; " +
+		Rule: "input-space exploration over definitions: all subsets of size 2-4 of the name pool {v, ve, ver, verbose, vex, x, é, ê, VE} x all partitions of the subset into options (names of one block are aliases) x option kind {bool, string} x 3 modes x require-order on/off, " +
+			"each queried with every prefix of every name plus non-matching texts, in long and short spelling, at the root, inside a command that inherits the options and adds one of its own and inside a wrapper command (UnsetOptions + Pass) with two own names sharing a prefix, alone and after a token that sets another option; " +
 			"effect, CalledAs, ambiguity error text (sorted candidate list) and unknown-option error compared with the reference matcher; on ambiguity no option value may change; distinct_nontrivial = distinct in-domain cases",
 		Assume: []string{"names outside the pool are not covered"},
 		Run: func(c *RunCtx) {
